@@ -10,6 +10,10 @@ restores it byte-identically.  The model's `usable` (third-party preconditions) 
 add-key: random chains (independent / shared / clone, several KDF parameter sets incl. refused ones, right and wrong
 unlock passwords); every (key, password) pairing is tried on the real code and compared with the symbolic key model
 (`settings.keychain`); add-key must never touch the backend.
+Key files ON DISK (`harness/impl/c17_keyfile.py`): chains init -o → add-key -o … whose output paths are absent / hold an earlier
+(shorter, longer, equally long) key of the chain / another repository's key / arbitrary content; every file is read back from
+disk and handed to a FRESH repository (never the in-process return value); the model (`settings.keydisk`, the way the path is
+opened regenerated from the source) must predict every file after every invocation.
 """
 import json
 import math
@@ -461,6 +465,29 @@ def impl_chain(sc):
     return {'init_ok': True, 'ops': ops_out, 'matrix': matrix, 'families': fams, 'later_mutations': [list(m) for m in be.mutations[n0:]]}
 
 
+def impl_keyfile(sc):
+    """init -o / add-key -o chains observed through the file system (`impl/c17_keyfile.py`)"""
+    from ..impl import c17_keyfile as KF
+    return KF.impl_keyfile_chain(sc, _scratch)
+
+
+def impl_cli_rotation(sc):
+    from ..common import PYMOD
+    from ..impl import c17_keyfile as KF
+    try:
+        return KF.cli_rotation(sc, _scratch, REPO, PYMOD, os.environ.get('REPLICAT_VERIF_GCL_SO') or WORK / 'native' / 'libgcl.so')
+    except Exception as e:  # noqa: BLE001
+        return {'ok': False, 'failed': [{'stage': 'harness', 'rc': None, 'output': repr(e)[:300]}], 'stages': []}
+
+
+CLI_ROTATIONS = [
+    # in-place rotation of the key file by separate interpreters: KDF cost lowered / raised / unchanged, over a long earlier file, independent key
+    {'n_init': 1024, 'n_new': 16}, {'n_init': 16, 'n_new': 4096}, {'n_init': 16, 'n_new': 4, 'pre_bytes': 5000}, {'n_init': 1024, 'n_new': 2, 'independent': True},
+    {'n_init': 64, 'n_new': 32}, {'n_init': 4, 'n_new': 2, 'pre_bytes': 3}, {'n_init': 128, 'n_new': 8, 'independent': True}, {'n_init': 2, 'n_new': 1024, 'pre_bytes': 668},
+    {'n_init': 4096, 'n_new': 2}, {'n_init': 16, 'n_new': 8, 'pre_bytes': 667}, {'n_init': 256, 'n_new': 64}, {'n_init': 8, 'n_new': 16, 'independent': True},
+]
+
+
 # ------------------------------------------------------------------ add-key scenarios
 ADDKEY_KDFS = [
     ({'encryption': {'kdf': {'n': 2}}}, True), ({'encryption': {'kdf': {'n': 4, 'r': 2}}}, True), ({'encryption': {'kdf': {'name': 'blake2b'}}}, True),
@@ -694,12 +721,18 @@ def run(out, drv, info):
     n_init = 420 if quick else 8000
     n_chain = 40 if quick else 700
     n_addkey = 60 if quick else 900
+    n_keyfile = 90 if quick else 2500
+    cli_rot = CLI_ROTATIONS[:3] if quick else CLI_ROTATIONS
     workers = min(16, os.cpu_count() or 4)
     out.rule = ('init cases = corpus (D12 witnesses, edges of every constructor check) + documented lattice points (hash × size, cipher × key size × nonce, '
                 'KDF × parameters, chunk bounds, encrypted / unencrypted) + one or two typed-junk edits (junk value for a parameter, any adapter name in any slot, '
                 'unknown parameter / key, section of the wrong type, missing password); non-trivial = settings non-empty and (junk edit or accepted); '
                 'add-key chains: 2–6 invocations over independent / shared / clone × 13 KDF settings (valid and refused) × right / wrong unlock password, '
-                'non-trivial = ≥ 3 keys produced; distinct = hash of the case')
+                'non-trivial = ≥ 3 keys produced; key files on disk: chains init -o / add-key -o (independent / shared / clone, 12 accepted + 4 refused KDF sections '
+                'of different serialised length, 6 repositories) over 1–4 output paths that are absent / hold an earlier key of the chain (shorter, longer, equal) / '
+                'another repository\'s key / bytes, text, JSON or white space of a length relative to the key about to be written (−40 … +300, equal) — '
+                'every file read back from disk by a fresh repository, non-trivial = ≥ 2 key files written; plus in-place key rotations through the CLI in '
+                'separate interpreters; distinct = hash of the case')
     out.assumptions = [
         'ideal cryptography in the key-chain theorems: KDF injective in (parameters, salt, password), AEAD opens only with the sealing key; os.urandom fresh',
         '`usable` encodes third-party preconditions (hashlib.blake2b digest 1…64, AES key 128/192/256 bits, AES-GCM nonce 8…128 bytes, scrypt n = 2^k > 1, '
@@ -707,11 +740,15 @@ def run(out, drv, info):
         'resource limits of scrypt (memory / time for large n·r·p) are outside the model; the tie samples n ≤ 65536, r, p ≤ 16',
         'settings values range over int, bool, float (finite or NaN), str, None, mapping; lists / bytes / sets are outside the typed universe',
         'the dict backend stands for every backend: init and add-key only call backend.upload / download',
+        'key files: the output path is a regular file or absent, in a writable directory of a POSIX file system; symlinks, read-only files, '
+        'directories at the path and concurrent writers are outside the model; `deserialize ∘ serialize = id` on keys (hypothesis `hparse`) is validated on every written key',
     ]
     r = rng_for(out.seed, 'C17-init')
     cases = gen_cases(r, n_init)
     chains = [gen_chain(rng_for(out.seed, 'C17-chain', i)) for i in range(n_chain)]
     akcases = addkey_settings_cases(rng_for(out.seed, 'C17-addkey'), n_addkey)
+    from ..impl import c17_keyfile as KF
+    kfchains = [KF.gen_keyfile_chain(rng_for(out.seed, 'C17-keyfile', i)) for i in range(n_keyfile)]
     scratch_root = WORK / str(os.getpid())
     scratch_root.mkdir(parents=True, exist_ok=True)
     try:
@@ -720,6 +757,9 @@ def run(out, drv, info):
             impl = pool.map(impl_case, cases, chunksize=4)
             impl_chains = pool.map(impl_chain, chains, chunksize=2)
             impl_ak = pool.map(impl_addkey_case, akcases, chunksize=4)
+            cli_async = pool.map_async(impl_cli_rotation, cli_rot, chunksize=1)
+            impl_kf = pool.map(impl_keyfile, kfchains, chunksize=3)
+            impl_cli = cli_async.get()
     finally:
         shutil.rmtree(scratch_root, ignore_errors=True)
     model = None
@@ -732,6 +772,25 @@ def run(out, drv, info):
     out.extra['impl_seconds_init_cases'] = round(sum(x['t'] for x in impl), 1)
     for sc, im in zip(chains, impl_chains):
         check_chain(out, sc, im, drv)
+    # ---- key files on disk, as a later process sees them
+    kf_valid = KF.valid_kdf_ids(drv) if drv is not None else None
+    for sc, im in zip(kfchains, impl_kf):
+        KF.check_keyfile_chain(out, sc, im, drv, kf_valid)
+    for sc, res in zip(cli_rot, impl_cli):
+        out.case({'cli_rotation': sc, 'ok': res['ok'], 'stages': res['stages']}, True)
+        out.count('keyfile-cli:' + ('ok' if res['ok'] else 'failed@' + str(res['failed'][0]['stage'])))
+        if not res['ok']:
+            f = res['failed'][0]
+            if f['stage'] in ('use-init-key', 'use-new-key'):
+                out.violation('settings:keyfile:cli:' + f['stage'],
+                              f'CLI, separate interpreters: init -o K (scrypt n={sc["n_init"]}' + (f', K held {sc["pre_bytes"]} bytes' if sc.get('pre_bytes') else '')
+                              + f') → add-key {"" if sc.get("independent") else "--shared "}-o K (n={sc["n_new"]}); then `list-snapshots -K K` with the password of the '
+                              f'key just written fails at {f["stage"]}: …{f["output"][-160:]!r}',
+                              {'kind': 'cli-rotation', 'scenario': sc, 'observed': f})
+            else:
+                out.disagreement(f'CLI rotation: {f["stage"]} failed (rc {f["rc"]}): {f["output"][-200:]!r}', {'kind': 'cli-rotation', 'scenario': sc, 'observed': f})
+        else:
+            out.traces_validated += 1
     # ---- add-key settings acceptance
     for c, im in zip(akcases, impl_ak):
         cid = {'repo': repr(c['repo_settings']), 'settings': repr(c['settings']), 'password': c['password'], 'shared': c['shared'], 'unlocked': c['unlocked']}
@@ -796,6 +855,23 @@ def replay(path, drv):
             im = impl_chain(rp['scenario'])
             print(json.dumps(im, indent=1, default=str))
             return 0
+        if rp.get('kind') == 'keyfile-chain':
+            from ..common import Outcome
+            from ..impl import c17_keyfile as KF
+            im = KF.impl_keyfile_chain(rp['scenario'], _scratch)
+            o = Outcome('C17', 'replay', 0)
+            KF.check_keyfile_chain(o, rp['scenario'], im, drv, KF.valid_kdf_ids(drv) if drv is not None else None)
+            for st in im.get('steps', []):
+                print({k: (v if not isinstance(v, str) or len(v) < 90 else v[:40] + '…' + str(len(v) // 2) + ' bytes') for k, v in st.items()})
+            for v in o.violations:
+                print('FAILS:', v['sig'], '—', v['what'])
+            for d_ in o.disagreements:
+                print('model ≠ implementation:', d_['what'])
+            return 1 if o.violations else 0
+        if rp.get('kind') == 'cli-rotation':
+            res = impl_cli_rotation(rp['scenario'])
+            print(json.dumps(res, indent=1))
+            return 0 if res['ok'] else 1
         print('replay kind not supported:', rp.get('kind'))
         return 2
     finally:
